@@ -89,6 +89,10 @@ def plain_eval(G, op, E, xs):
         return int(not (a == b))
     if name == 'eq_self':
         return 1
+    if name == 'eq_cancel':      # (a @ ~a) against identity values of different origin
+        return 1
+    if name == 'eq_prod_ident':  # is a @ b the identity?
+        return int((a @ b) == type(a).identity)
     if name == 'if_else':
         return a if op[1] else b
     if name == 'pubexp':
@@ -121,6 +125,14 @@ async def secure_eval(mpc, G, secgrp, op, E, S, X):
         return int(await mpc.output(sa != sb))
     if name == 'eq_self':
         return int(await mpc.output(sa == secgrp(a)))
+    if name == 'eq_cancel':
+        # an identity PRODUCED by secure computation (arbitrary representative in projective coordinates) compared with the
+        # constant identity and with another computed identity; != must be 0 as well
+        z1, z2 = sa @ ~sa, sb @ ~sb
+        r = await mpc.output([z1 == secgrp.identity, z1 == z2, 1 - (z1 != secgrp(type(a).identity))])
+        return int(all(int(v) == 1 for v in r))
+    if name == 'eq_prod_ident':
+        return int(await mpc.output((sa @ sb) == secgrp.identity))
     if name == 'if_else':
         c = mpc.input(secgrp.sectype(op[1]), senders=0)
         variant = op[2]
@@ -321,6 +333,8 @@ def make_tasks(ctx):
                 heavy = cost != 'cheap' or sym          # a single operation costs 0.1 .. several seconds
                 light = quick and heavy and m > 1       # quick tier: fewer operations per multi-party run
                 ops = [('op',), ('inv',), ('eq',)]
+                if cost in ('cheap', 'ec') and 'generic' not in restr and (rep % 2 == 0 or mode == 'opposite'):
+                    ops += [('eq_cancel',), ('eq_prod_ident',)]
                 if not light:
                     ops += [('eq_self',), ('op2',)]
                     if cost != 'cl':
